@@ -1702,4 +1702,17 @@ example : framesOfX [.df fa, .ts { idx := [1], vals := [some 1] }, .num (some 2)
 example : (XVal.div (.fin 1) (.fin 0)).isInf = true ∧ (XVal.divMasked (.fin 1) (.fin 0)).isInf = false :=
   ⟨by rw [div_unmasked_inf.1]; rfl, (div_never_inf (some 1) (some 0)).1⟩
 
+/-- **the neutral element of a missing column is applied PER STEP of the reduction** (review t4, C08 clause 'oj'; a declared
+consequence of "lists reduce left to right", not a separate rule): under `columns = 'oj'` a scalar inside the list reaches
+only the columns the running result has when its turn comes.  `fa` has columns a, b; `fb` has b, c:
+`add_([fa, 1, fb])` = `(fa + 1) + fb` leaves `c = fb.c` (`0 + 8`), `add_([fa, fb, 1])` = `(fa + fb) + 1` gives `c = fb.c + 1`. -/
+theorem oj_neutral_per_step :
+    opListF .add .inner Option.none .oj
+        [.df ⟨[0], [("a", [some 1]), ("b", [some 2])]⟩, .num (some 1), .df ⟨[0], [("b", [some 4]), ("c", [some 8])]⟩] [] =
+      some (.df ⟨[0], [("a", [some 2]), ("b", [some 7]), ("c", [some 8])]⟩) ∧
+    opListF .add .inner Option.none .oj
+        [.df ⟨[0], [("a", [some 1]), ("b", [some 2])]⟩, .df ⟨[0], [("b", [some 4]), ("c", [some 8])]⟩, .num (some 1)] [] =
+      some (.df ⟨[0], [("a", [some 2]), ("b", [some 7]), ("c", [some 9])]⟩) := by
+  decide +kernel
+
 end Pyg.Props.C08
